@@ -489,11 +489,63 @@ theorem p_logonReply (b : Bool) (g0 : G8) (s : Sess) (m : InMsg) (flag : Bool) :
   unfold logonReply
   q_cases
 
+/-- after the Logon reply went out (acceptor) or was sent at connect (initiator): the connection has been written on,
+    and an acceptor's queue is empty -/
+def Ready (g0 : G8) (x : Sess) : Prop :=
+  x.out = true → ((g8Of g0 x).fresh = false ∧ (x.cfg.initiator = false → x.toSend = []))
+
+theorem dropAndSend_admin (g0 : G8) (s : Sess) (m : OutMsg) (h : isAdminKind m.kind = true) (ho : s.out = true) :
+    (dropAndSend s m).toSend = [] ∧ (g8Of g0 (dropAndSend s m)).fresh = false := by
+  unfold dropAndSend
+  obtain ⟨m', hm, _, _⟩ := prep_admin s m h
+  have hfr := (prep_spec s m).1.fr
+  generalize prep s m = r at hm hfr
+  obtain ⟨o, s'⟩ := r
+  dsimp only at hm hfr
+  subst hm
+  dsimp only
+  have hq := sendQueued_spec g0 (s'.setToSend [m'])
+  have ho' : (s'.setToSend [m']).out = true := by show s'.out = true; rw [hfr.out]; exact ho
+  rw [ho'] at hq
+  simp only [if_true] at hq
+  refine ⟨hq.2.1, ?_⟩
+  rw [hq.2.2]
+  show (c8o _ (.wire m')).fresh = false
+  rw [c8o_wire]
+
+theorem ready_logonReply (g0 : G8) (s : Sess) (m : InMsg) (flag : Bool) (hW : WK g0 s) : Ready g0 (logonReply s m flag) := by
+  unfold logonReply
+  split
+  · rename_i hini
+    have hini' : s.cfg.initiator = false := by simpa using hini
+    generalize hx : (if (!s.cfg.hbOverride) = true then
+        match getInt m 108 with
+        | Got.val h => s.setHb h
+        | x => s
+      else s) = x
+    have hfr : Fr s x := by
+      rw [← hx]; repeat' split
+      all_goals exact ⟨rfl, rfl, rfl, rfl, rfl⟩
+    intro ho
+    have hfr2 : Fr x (sendLogonInReplyTo x flag) := fr_dropAndSend x _
+    have hox : x.out = true := by rw [← hfr2.out]; exact ho
+    have := dropAndSend_admin g0 x (logonMsg x flag) rfl hox
+    exact ⟨this.2, fun _ => this.1⟩
+  · rename_i hini
+    have hini' : s.cfg.initiator = true := by simpa using hini
+    intro ho
+    refine ⟨?_, fun h => by rw [hini'] at h; cases h⟩
+    cases hf : (g8Of g0 s).fresh
+    · rfl
+    · have := (hW.fresh ho hf).2.1
+      rw [hini'] at this; cases this
+
 /-- the part of `handleLogon` before `logonFinish`: either it ends early with an error that is not a too-high
-    verdict, or it reaches `logonFinish` with a readable MsgSeqNum; neutral steps only, in every state -/
+    verdict, or it reaches `logonFinish` with a readable MsgSeqNum and the Logon reply out; neutral steps only, in
+    every state -/
 theorem handleLogon_shape (g0 : G8) (s : Sess) (m : InMsg) (hk : isAdminKind (kindOf m) = true) :
     (∃ e, (handleLogon s m).2 = some e ∧ e.isTooHigh = false ∧ P true g0 s (handleLogon s m).1) ∨
-    (∃ x, P true g0 s x ∧ handleLogon s m = logonFinish x m ∧ ∃ n, getInt m 34 = .val n) := by
+    (∃ x, P true g0 s x ∧ (WK g0 s → Ready g0 x) ∧ handleLogon s m = logonFinish x m ∧ ∃ n, getInt m 34 = .val n) := by
   unfold handleLogon
   split
   · exact Or.inl ⟨_, rfl, rfl, P.refl _ _ _⟩
@@ -522,7 +574,8 @@ theorem handleLogon_shape (g0 : G8) (s : Sess) (m : InMsg) (hk : isAdminKind (ki
       have h4 := h3.pn hv2
       cases o2 with
       | some r => exact Or.inl ⟨_, rfl, hnt2 r rfl, h4⟩
-      | none => exact Or.inr ⟨_, h4.trans (p_logonReply true g0 s4 m _), rfl, hseq rfl⟩
+      | none =>
+        exact Or.inr ⟨_, h4.trans (p_logonReply true g0 s4 m _), fun hW => ready_logonReply g0 s4 m _ (h4.w hW), rfl, hseq rfl⟩
 
 /-- `logonFinish` with a readable MsgSeqNum: the notification, then either a too-high verdict or the number consumed -/
 theorem logonFinish_spec (x : Sess) (m : InMsg) (n : Int) (hn : getInt m 34 = .val n) :
@@ -558,7 +611,7 @@ theorem p_logonFinish_notif (g0 : G8) (x : Sess) (m : InMsg) (hn : (x.st.loggedO
 
 theorem p_handleLogon_notif (g0 : G8) (s : Sess) (m : InMsg) (hk : isAdminKind (kindOf m) = true)
     (hn : (s.st.loggedOn || s.st.isLogout) = true) : P true g0 s (handleLogon s m).1 := by
-  rcases handleLogon_shape g0 s m hk with ⟨e, _, _, h⟩ | ⟨x, hx, heq, _⟩
+  rcases handleLogon_shape g0 s m hk with ⟨e, _, _, h⟩ | ⟨x, hx, _, heq, _⟩
   · exact h
   · rw [heq]; exact hx.trans (p_logonFinish_notif g0 x m (by rw [hx.fr.st]; exact hn))
 
